@@ -25,7 +25,11 @@ impl GraphvizOutput {
         let name = rule.name(cst).unwrap().0;
         output
             .write_all(format!("  \"{}\" [label=\"{}\"];\n", rule.syntax().0, name).as_bytes())?;
-        let regex = Self::skip_paren(cst, rule.regex(cst).unwrap());
+        // a rule may have an empty body (this only draws a warning)
+        let Some(regex) = rule.regex(cst) else {
+            return Ok(());
+        };
+        let regex = Self::skip_paren(cst, regex);
         Self::visit_regex(cst, sema, regex, output)?;
         output.write_all(
             format!(
